@@ -147,6 +147,20 @@ class MonoTimer(Timer):
         self.start(duration=duration, start=start)
 
 
+    def start(self, duration=None, start=None):
+        """Starts Timer of duration secs at start time start secs.
+            If duration not provided then uses current duration
+            If start not provided then starts at current time.time() and
+            resyncs ._last to it so that a clock retrograde that happened before
+            this start is not applied to the new ._start and ._stop
+        """
+        resync = start is None
+        start = super(MonoTimer, self).start(duration=duration, start=start)
+        if resync:
+            self._last = start
+        return start
+
+
     @property
     def elapsed(self):
         """elapsed time property getter,
